@@ -43,9 +43,19 @@ def _method(cls: ast.ClassDef, name: str) -> ast.FunctionDef:
     return f
 
 
+def self_attr(cls: ast.ClassDef) -> str:
+    """The one instance attribute (called `original` upstream; a rename is harmless)."""
+    names = {t.attr for s in ast.walk(_method(cls, "__init__")) if isinstance(s, ast.Assign) for t in s.targets
+             if isinstance(t, ast.Attribute) and isinstance(t.value, ast.Name) and t.value.id == "self"}
+    if len(names) != 1:
+        raise TranslatorError(f"{cls.name}.__init__ sets instance attributes {sorted(names)} (expected exactly one)")
+    return "self." + names.pop()
+
+
 def tr_method(cls: ast.ClassDef, name: str, kind: str) -> str:
     """kind: init | enter | exit.  Returns the Coq body (a let-chain)."""
     f = _method(cls, name)
+    ATTR = self_attr(cls)
     stmts = strip_doc(f.body)
     declared = {n for s in ast.walk(f) if isinstance(s, ast.Global) for n in s.names}
     if declared - {FLAG}:
@@ -59,7 +69,7 @@ def tr_method(cls: ast.ClassDef, name: str, kind: str) -> str:
     lines = []
     if kind != "init":
         lines.append("let orig := original self in")
-        env["self.original"] = ("orig", "bool")
+        env[ATTR] = ("orig", "bool")
     ret = "false"
     for i, s in enumerate(stmts):
         tr = ExprTr(env=dict(env))
@@ -77,9 +87,9 @@ def tr_method(cls: ast.ClassDef, name: str, kind: str) -> str:
                 else:
                     lines.append(f"let g := {term} in")
                 continue
-            if isinstance(t, ast.Attribute) and ast.unparse(t) == "self.original":
+            if isinstance(t, ast.Attribute) and ast.unparse(t) == ATTR:
                 lines.append(f"let orig := {term} in")
-                env["self.original"] = ("orig", "bool")
+                env[ATTR] = ("orig", "bool")
                 continue
         if isinstance(s, ast.Return) and i == len(stmts) - 1:
             if s.value is None or (isinstance(s.value, ast.Constant) and s.value.value is None):
@@ -91,7 +101,7 @@ def tr_method(cls: ast.ClassDef, name: str, kind: str) -> str:
                     ret = "true" if s.value.value else "false"
                 continue
         raise TranslatorError(f"{cls.name}.{name}: statement not supported: `{ast.unparse(s)[:70]}`")
-    if "self.original" not in env:
+    if ATTR not in env:
         raise TranslatorError(f"{cls.name}.__init__ never sets self.original")
     res = "(g, mkObj orig" + (f", {ret})" if kind == "exit" else ")")
     return " ".join(lines + [res])
